@@ -47,7 +47,7 @@ def main():
     ck = Check('C09', 'model_checking')
     str_cap = 3 if ck.tier == 'quick' else 5
     ck.bounds = {'integers': 'all i64 / u64 (64-bit bit-vectors)', 'floats': 'all IEEE doubles incl. NaN, +-0, +-inf',
-                 'constants': 'symbolic i64 / f64', 'string fields': '<= %d ASCII bytes' % str_cap,
+                 'constants': 'symbolic i64 / f64; as text: every decimal integer of 1..18 digits, both signs, all five prefixes', 'string fields': '<= %d ASCII bytes' % str_cap,
                  'arrays/objects': 'kind only (contents irrelevant to this arm)'}
     ck.assumptions = [
         'str::parse::<i64> modelled exactly (sign, digits) on bounded strings; str::parse::<f64> is an uninterpreted total function of the string',
@@ -57,7 +57,7 @@ def main():
         'two-field comparisons: missing is required when the left field is absent, or the left converts and the right is absent',
         'tracing disabled',
     ]
-    ck.functions |= {'solver::solve_expression (BooleanExpression arm)', 'value::Value::to_string', 'value::Value::as_bool', 'value::Value::is_null'}
+    ck.functions |= {'identifier::into_identifier (numeric prefixes)', 'solver::solve_expression (BooleanExpression arm)', 'value::Value::to_string', 'value::Value::as_bool', 'value::Value::is_null'}
     units = [('prim',)]
     for ck_kind in ('Integer', 'Float'):
         units.append(('tri', ck_kind))
@@ -74,6 +74,10 @@ def main():
         if fam in ('number', 'scalar') or (fam == 'list-mixed' and any(c in name for c in '<>=')) or \
                 (fam == 'modifier' and any(t in name for t in ('int(', 'flt('))) or (fam == 'cast-cond' and 'str' not in name and 'not' not in name and 'Z and' not in name):
             units.append(('loader', name, rule))
+    # the constant itself: pattern text -> into_identifier (real MIR) -> the integer it denotes
+    for pre in ('=', '>', '>=', '<', '<='):
+        for sign in ('', '-'):
+            units.append(('constant-text', pre, sign))
     ck.run_units(units, run_unit)
     ck.finish('comparison arm of solve_expression on symbolic cells and symbolic constants; z3 decides against '
               '65-bit / IEEE relations')
@@ -259,9 +263,78 @@ def loader_unit(ck, name, rule):
     ck.obligation('loader ' + name, tr.uni, (v['res'] == T) != (want == T), sample={'rule': name}, on_sat=on_sat)
 
 
+def constant_text_unit(ck, pre, sign):
+    """'<op><sign><digits>' with 1..N symbolic decimal digits through the real into_identifier: the pattern it
+    returns holds exactly the integer the digits denote (N = 18 characters with the sign: beyond 2^53, where a detour through
+    f64 would round, and short of the i64 limit, so every text in the bound is a valid constant)"""
+    from mirsym import models_chars
+    prog = ck.program()
+    uni = engine.Universe()
+    ex = ck.new_engine(prog, uni=uni, summarise=())
+    models_chars.install(ex)
+    N = 18 - len(sign)
+    d = S.fresh('digits', N, uni.axioms, ascii_only=True, min_len=1)
+    for b in d.bytes:
+        uni.axioms.append(z3.And(z3.UGE(b, 0x30), z3.ULE(b, 0x39)))
+    head = (pre + sign).encode()
+    s = S.SStr(list(head) + list(d.bytes), d.length + len(head), 'const')
+    fn = [f for f in prog.fns if f.kind == 'fn' and f.name.endswith('::into_identifier')][0]
+    results = ex.explore(fn, [StrV(s)])
+    for r in results:
+        ck.blocks |= r.blocks
+    # the integer the text denotes: the specification of decimal i64 parsing (the trusted model of str::parse::<i64>,
+    # exact: sign, digits, no overflow within 18 characters) applied to <sign><digits>
+    numtxt = S.SStr([z3.BitVecVal(c, 8) for c in sign.encode()] + list(d.bytes), d.length + len(sign), 'number')
+    valid, val = models_std.parse_int_terms(uni, numtxt, 'i64')
+    uni.axioms.append(valid)
+    want_kind = {'=': 'Equal', '>': 'GreaterThan', '>=': 'GreaterThanOrEqual', '<': 'LessThan', '<=': 'LessThanOrEqual'}[pre]
+    label = 'constant text %s%s<digits>' % (pre, sign)
+    br = ck.bridge()
+
+    def on_sat(model, what):
+        # the model's digits first, then - the parse of a float is uninterpreted in the model - the texts where a detour
+        # through another number type would show, all replayed through the real into_identifier
+        tried = [S.model_bytes(model, d)] + [t.encode() for t in ('9007199254740993', '900719925474099301', '123456789012345678',
+                                                                   '999999999999999999', '72057594037927937', '1', '0')]
+        for digits in tried:
+            text = head + digits
+            n = br.call(cmd='ident', s=list(text))
+            exp = int((sign + digits.decode()))
+            path = ck.write_replay('constant_' + text.hex()[:48], {'input': text.decode(), 'native': n, 'expected': {'t': want_kind, 'n': exp},
+                                                                             'request': {'cmd': 'ident', 's': list(text)}, 'what': what})
+            ck.replays_ok += 1
+            pat = n.get('pattern') or {}
+            if not n.get('ok') or pat.get('t') != want_kind or pat.get('n') != exp:
+                return ('violation', path, '%s: %r is read as %r, it denotes %s %d' % (label, text.decode(), n, want_kind, exp))
+        return ('spurious', 'native into_identifier reads the constant correctly on every replayed text')
+    for i, r in enumerate(results):
+        if r.kind == 'panic':
+            ck.obligation('%s: no panic (path %d)' % (label, i), uni, z3.And(*r.pc) if r.pc else True, on_sat=lambda m: on_sat(m, 'panic'))
+            continue
+        ok = r.value.vname == 'Ok'
+        good = False
+        if ok:
+            ident = r.value.items[0]
+            flag, pat = ident.items[0], ident.items[1]
+            if pat.vname == want_kind and isinstance(pat.items[0], BV):
+                got = pat.items[0].v
+                got = z3.BitVecVal(got, 64) if isinstance(got, int) else got
+                good = z3.And(z3.Not(z3bool(flag)), got == val)
+        ck.obligation('%s: denotes its digits (path %d)' % (label, i), uni, z3.And(*r.pc, z3.Not(z3bool(good))) if r.pc else z3.Not(z3bool(good)),
+                      sample={'form': label, 'digits': '1..%d' % N}, on_sat=lambda m: on_sat(m, 'value'))
+    ck.extra['programs'] = ck.extra.get('programs', 0) + 1
+
+
+def safe_name(s):
+    return ''.join(c if c.isalnum() else '_' for c in s)[:60]
+
+
 def run_unit(ck, unit):
     if unit[0] == 'loader':
         loader_unit(ck, unit[1], unit[2])
+        return
+    if unit[0] == 'constant-text':
+        constant_text_unit(ck, unit[1], unit[2])
         return
     c = setup(ck)
     uni, d, n, y, cf, cg, pf, pg = c.uni, c.d, c.n, c.y, c.cf, c.cg, c.pf, c.pg
@@ -377,7 +450,7 @@ def confirm(ck, name, what, model, d, witness, key_role):
     lk, op, rk, order = witness
     n = model.eval(z3.BitVec('n', 64), model_completion=True).as_long()
     n = norm_int(n, 'i64')
-    ybits = model.eval(z3.fpToIEEEBV(z3.FP('y', z3.Float64())), model_completion=True).as_long()
+    ybits = fp_bits(model, z3.FP('y', z3.Float64()))
     import struct
     yv = struct.unpack('<d', struct.pack('<Q', ybits))[0]
     docj = d.render(model)
